@@ -91,6 +91,7 @@ theorem done_apply (s : State) (a : Act) (h : s.pc = .done → s.discarded = tru
     obtain ⟨h1, _, _, h4⟩ := put_frame s e (min hr s.height)
     simp only [apply, h1, h4]; exact h
   | adv => exact h
+  | notify => simp only [apply, notify]; split <;> exact h
   | disc =>
     simp only [apply, discard]
     split
